@@ -18,13 +18,15 @@ from __future__ import annotations
 
 import datetime as dt
 import functools
+import os
+import time as _time
 
 from pyoda_time import CalendarSystem, Duration, Instant, LocalDate, LocalDateTime, LocalTime, Offset, OffsetDateTime
 
 from vf.core.evidence import Acc, exc_origin
 from vf.core.par import pmap
 from vf.models import intarith as M
-from vf.models.valbind import cal_range, date_at, day_of, private_ok
+from vf.models.valbind import cal_range, date_at, day_of, make_kwf, private_ok
 
 LEVEL = "model_checking"
 NSD = M.NS_DAY
@@ -33,6 +35,31 @@ ORD_MAX = dt.date.max.toordinal()  # 3652059
 DAY_MIN = 1 - ORD_EPOCH            # day number of 0001-01-01
 DAY_MAX = ORD_MAX - ORD_EPOCH      # day number of 9999-12-31
 UTC = dt.timezone.utc
+
+
+# documented parameter names of the bridges, also called by keyword (dropped with a 'degraded' note if a tree does not accept them)
+KW_NAMES = {"LocalDate.from_date": ("date",), "LocalTime.from_time": ("time",), "LocalDateTime.from_naive_datetime": ("dt", "calendar"),
+            "Instant.from_aware_datetime": ("dt",), "OffsetDateTime.from_aware_datetime": ("aware_datetime",),
+            "Duration.from_timedelta": ("timedelta",), "Offset.from_timedelta": ("timedelta",)}
+kwf = make_kwf(KW_NAMES, {"LocalDate": LocalDate, "LocalTime": LocalTime, "LocalDateTime": LocalDateTime, "Instant": Instant,
+                          "OffsetDateTime": OffsetDateTime, "Duration": Duration, "Offset": Offset})
+# ambient process state: local time zones under which a slice of every part is repeated (results must not depend on them)
+AMBIENT_TZS = (("JST-9", "JST-9"), ("EST5EDT", "EST5EDT4,M3.2.0,M11.1.0"))
+
+
+def same_kw(acc, qual, ref, key, case, *args):
+    """the keyword spelling of a bridge must give the same value as the positional call"""
+    for f in kwf(acc, qual, *args):
+        acc.count(transitions=1, evaluations=1)
+        try:
+            r = f()
+        except Exception as e:  # noqa: BLE001
+            if exc_origin(e) == "harness":
+                raise
+            acc.violation(key + "/keyword-raises/" + type(e).__name__, "%s by keyword raised %s: %s" % (qual, type(e).__name__, str(e)[:100]), case)
+            continue
+        if r != ref:
+            acc.violation(key + "/keyword-differs", "%s by keyword gives %r, positional call gives %r" % (qual, r, ref), case)
 
 
 def worker(fn):
@@ -97,6 +124,8 @@ def w_dates(job):
             if (ld.year, ld.month, ld.day) != (d.year, d.month, d.day) or ld.calendar != iso or day_of(ld) != n - ORD_EPOCH:
                 acc.violation("C15/date/from_date/fields/%s" % yclass(n), "from_date(%s) is %d-%02d-%02d %s (day %d)" % (d, ld.year, ld.month, ld.day, ld.calendar.id, day_of(ld)), case)
                 continue
+            if d.day == 1:
+                same_kw(acc, "LocalDate.from_date", ld, "C15/date/from_date", case, d)
             back = ld.to_date()
             if back != d or type(back) is not dt.date:
                 acc.violation("C15/date/roundtrip/%s" % yclass(n), "from_date(%s).to_date() is %r" % (d, back), case)
@@ -191,6 +220,8 @@ def w_times(job):
                               py="import datetime\nfrom pyoda_time import LocalTime\n\ndef test_replay():\n    t = datetime.time(%d, %d, %d, %d)\n"
                                  "    assert LocalTime.from_time(t).nanosecond_of_day == %d\n    assert LocalTime.from_time(t).to_time() == t\n" % (h, mi, s, us, exp_ns))
                 continue
+            if us == 1:
+                same_kw(acc, "LocalTime.from_time", lt, "C15/time/from_time", case, tt)
             ok, back = call(acc, lt.to_time, "C15/time/to_time", case)
             if ok and (back != tt or back.tzinfo is not None):
                 acc.violation("C15/time/roundtrip/us=%d" % us, "from_time(%s).to_time() is %s" % (tt, back), case)
@@ -234,6 +265,7 @@ def check_naive(acc, ordinal, us, cal_ids):
     if got != exp:
         acc.violation("C15/datetime-naive/from_naive_datetime/fields/%s" % yc, "from_naive_datetime(%s) has fields %r, exact %r" % (d, got, exp), case, py)
         return
+    same_kw(acc, "LocalDateTime.from_naive_datetime", l, "C15/datetime-naive/from_naive_datetime/%s" % yc, case, d, CalendarSystem.iso)
     ok, back = call(acc, l.to_naive_datetime, "C15/datetime-naive/to_naive_datetime/%s" % yc, case, py=py)
     if ok and (back != d or back.tzinfo is not None):
         acc.violation("C15/datetime-naive/roundtrip/%s" % yc, "from_naive_datetime(%s).to_naive_datetime() is %s" % (d, back), case, py)
@@ -246,6 +278,7 @@ def check_naive(acc, ordinal, us, cal_ids):
         ok, lc = call(acc, lambda: LocalDateTime.from_naive_datetime(d, cal), "C15/datetime-naive/from_naive_datetime/%s;%s" % (cid, yc), c2)
         if not ok:
             continue
+        same_kw(acc, "LocalDateTime.from_naive_datetime", lc, "C15/datetime-naive/from_naive_datetime/%s;%s" % (cid, yc), c2, d, cal)
         if (day_of(lc.date), lc.nanosecond_of_day, lc.calendar.id) != (n, us * 1000, cid):
             acc.violation("C15/datetime-naive/from_naive_datetime/fields/%s;%s" % (cid, yc), "from_naive_datetime(%s, %s) is (day %d, ns %d, %s)" % (
                 d, cid, day_of(lc.date), lc.nanosecond_of_day, lc.calendar.id), c2)
@@ -328,6 +361,7 @@ def check_aware(acc, ordinal, us, off, off_us=0):
                 acc.violation("C15/datetime-aware/odt-from/fields/%s;%s" % (yc, ocls), "OffsetDateTime.from_aware_datetime(%s) is (day, ns, offset, cal) %r, exact %r" % (
                     a, got, (n, us * 1000, off, "ISO")), case)
             else:
+                same_kw(acc, "OffsetDateTime.from_aware_datetime", o, "C15/datetime-aware/odt-from/%s;%s" % (yc, ocls), case, a)
                 ok, back = call(acc, o.to_aware_datetime, "C15/datetime-aware/odt-to/%s;%s" % (yc, ocls), case)
                 if ok and (back != a or back.utcoffset() != a.utcoffset() or back.replace(tzinfo=None) != a.replace(tzinfo=None)):
                     acc.violation("C15/datetime-aware/odt-roundtrip/%s;%s" % (yc, ocls), "from_aware_datetime(%s).to_aware_datetime() is %s" % (a, back), case)
@@ -344,6 +378,7 @@ def check_aware(acc, ordinal, us, off, off_us=0):
     if got_ns != inst_us * 1000:
         acc.violation("C15/datetime-aware/instant-from/value/%s;%s" % (yc, ocls), "Instant.from_aware_datetime(%s) is %d ns from the epoch, exact %d" % (a, got_ns, inst_us * 1000), case)
         return
+    same_kw(acc, "Instant.from_aware_datetime", i, "C15/datetime-aware/instant-from/%s;%s" % (yc, ocls), case, a)
     utc_in = DAY_MIN * 86400 * 10 ** 6 <= inst_us < (DAY_MAX + 1) * 86400 * 10 ** 6
     if not utc_in:
         acc.count(nontrivial=1)
@@ -486,6 +521,7 @@ def w_timedelta(_):
         if d.to_nanoseconds() != us * 1000:
             acc.violation("C15/timedelta/duration-from/value/%s" % scls(us), "from_timedelta(%r) is %d ns, exact %d" % (td, d.to_nanoseconds(), us * 1000), case, py)
             continue
+        same_kw(acc, "Duration.from_timedelta", d, "C15/timedelta/duration-from/%s" % scls(us), case, td)
         ok, back = call(acc, d.to_timedelta, "C15/timedelta/duration-to/%s" % scls(us), case, py=py)
         if ok and back != td:
             acc.violation("C15/timedelta/duration-roundtrip/%s" % scls(us), "from_timedelta(%r).to_timedelta() is %r" % (td, back), case, py)
@@ -528,6 +564,7 @@ def w_offset_td(job):
         if ok and back != td:
             acc.violation("C15/timedelta/offset-roundtrip/%s" % scls(s), "Offset.from_timedelta(%r).to_timedelta() is %r" % (td, back), case)
         if s % 61 == 0 or s in (M.OFF_MIN_S, M.OFF_MAX_S):
+            same_kw(acc, "Offset.from_timedelta", o, "C15/timedelta/offset-from/%s" % scls(s), case, td)
             # fractional seconds are truncated toward zero (documented); beyond +/-18 h must raise
             for us in (1, 999_999, -1, -999_999):
                 tot = s * 10 ** 6 + us
@@ -547,6 +584,60 @@ def w_offset_td(job):
             ok, o = call(acc, lambda: Offset.from_timedelta(td), "C15/timedelta/offset-from/beyond", {"kind": "offset-td-beyond", "td": repr(td)}, ok=False)
             if ok:
                 acc.violation("C15/timedelta/offset-from/no-raise", "%r is beyond +/-18 h but Offset %r was returned" % (td, o), {"kind": "offset-td-beyond", "td": repr(td)})
+    return acc
+
+
+# ---------------------------------------------------------------------------------------------------- ambient process state
+def _set_tz(tz):
+    old = os.environ.get("TZ")
+    if tz is None:
+        os.environ.pop("TZ", None)
+    else:
+        os.environ["TZ"] = tz
+    _time.tzset()
+    return old
+
+
+def ambient_slice(acc, ordinals, times, offs):
+    """a slice of every part, small enough to repeat under each ambient setting"""
+    for o in ordinals:
+        for us in times:
+            for off in offs:
+                check_aware(acc, o, us, off)
+            check_naive(acc, o, us, ())
+    acc.merge(w_aware_misc.__wrapped__((ordinals[:2] + ordinals[-2:], times[:2])))
+    for n in (DAY_MIN, DAY_MIN + 1, 0, 11016, DAY_MAX):
+        for t in (0, 999, NSD - 1):
+            check_ldt_to_naive(acc, "ISO", n, t)
+            for off in (0, M.OFF_MAX_S, M.OFF_MIN_S):
+                check_odt_to_aware(acc, "ISO", n, t, off)
+    acc.merge(w_timedelta.__wrapped__(0))
+    for lo, hi in ((1, 120), (ORD_EPOCH - 60, ORD_EPOCH + 60), (ORD_MAX - 119, ORD_MAX + 1)):
+        acc.merge(w_dates.__wrapped__((lo, hi)))
+    for lo, hi in ((0, 30), (43185, 43215), (86370, 86400)):
+        acc.merge(w_times.__wrapped__((lo, hi)))
+
+
+@worker
+def w_ambient(job):
+    label, tz, ordinals, times, offs = job
+    inner = Acc()
+    old = _set_tz(tz)
+    try:
+        local_offset = -_time.timezone
+        ambient_slice(inner, ordinals, times, offs)
+    finally:
+        _set_tz(old)
+    acc = Acc()
+    acc.count(inner.states, inner.transitions, inner.evaluations, inner.nontrivial)
+    for k, v in inner.outcomes.items():
+        acc.outcome(k, v)
+    acc.outcome("ambient:TZ=%s(utc offset %d s)" % (label, local_offset))
+    for key, (what, case, py) in inner.violations.items():
+        acc.violation(key.replace("C15/", "C15/ambient-tz=%s/" % label, 1), "[process TZ=%s] %s" % (tz, what), {"tz": tz, "case": case}, py)
+    for dgr in inner.degraded:
+        acc.degrade(dgr)
+    acc.sample({"ambient_TZ": tz, "local_utc_offset_s": local_offset, "slice_states": inner.states})
     return acc
 
 
@@ -643,6 +734,14 @@ def run(ctx):
         span = M.OFF_MAX_S - M.OFF_MIN_S + 1
         for acc in pmap(w_offset_td, _rot([(M.OFF_MIN_S + a, M.OFF_MIN_S + min(span, a + 8192)) for a in range(0, span, 8192)], ctx.seed)):
             ctx.merge_part("timedelta", acc)
+    if _want(ctx, "ambient"):
+        a_ord = sorted({dt.date(*x).toordinal() for x in ((1, 1, 1), (1, 1, 2), (1969, 12, 31), (1970, 1, 1), (2000, 2, 29), (2024, 3, 10), (2024, 11, 3),
+                                                        (9999, 12, 30), (9999, 12, 31))})
+        offs = (0, 1, -1, 19800, -18000, 32400, M.OFF_MAX_S, M.OFF_MIN_S)
+        jobs = [(label, tz, a_ord, (0, 43_200_000_000, 86_399_999_999), offs) for label, tz in AMBIENT_TZS]
+        for acc in pmap(w_ambient, _rot(jobs, ctx.seed)):
+            ctx.merge_part("ambient", acc)
+        ctx.note("ambient", {"main_process_tzname": list(_time.tzname), "repeated_under": [tz for _, tz in AMBIENT_TZS]})
     for cid in cal_ids:
         if not cal_range(cid)[2]:
             ctx.degrade("calendar %s: private day range differs from first day of min_year..last day of max_year (C01's subject); only days inside the public range are used" % cid)
@@ -657,6 +756,8 @@ def run(ctx):
         "offsets beyond +/-18 h cannot be held by Offset: OffsetDateTime.from_aware_datetime / Offset.from_timedelta must raise (any exception)",
         "from_naive_datetime(dt, calendar) is exercised only for calendars whose range contains the day",
         "'fold' is ignored (fixed offsets only)",
+        "ambient process state: a slice of every part is repeated in worker processes with TZ=JST-9 and TZ=EST5EDT4,M3.2.0,M11.1.0 (time.tzset()); "
+        "the same absolute oracle applies, i.e. results must not depend on the local time zone of the process",
     ]
     # Sub-spaces enumerated completely: every datetime.date; every whole-second Offset<->timedelta; every second of the day x 5
     # microsecond values; (thorough) every day of every calendar inside 0001..9999.  datetime x offset x microsecond as a whole
@@ -669,10 +770,13 @@ def run(ctx):
 # ---------------------------------------------------------------------------------------------------- replay
 def replay(rec):
     case = rec.get("case") or {}
-    if "case" in case and isinstance(case["case"], dict):
+    tz = case.get("tz") if isinstance(case, dict) else None
+    while isinstance(case, dict) and "case" in case and isinstance(case["case"], dict):
+        tz = tz or case.get("tz")
         case = case["case"]
     acc = Acc()
     k = case.get("kind")
+    old = _set_tz(tz) if tz else None
     try:
         if k == "date":
             acc.merge(w_dates((case["ordinal"], case["ordinal"] + 1)))
@@ -699,4 +803,9 @@ def replay(rec):
         if exc_origin(e) == "harness":
             raise
         return True
+    finally:
+        if tz:
+            _set_tz(old)
+    if tz:
+        return bool(acc.violations)
     return rec.get("key") in acc.violations or (bool(acc.violations) and rec.get("key") is None)
